@@ -116,9 +116,10 @@ structure LcaInv (db : LcaDb) (ents : Ents) : Prop where
   nameNodup : (ents.map (·.2.name)).Nodup
   owns : ∀ h i, Owns db.hashvalToIdx h i ↔ ∃ e ∈ ents, e.1 = i ∧ h ∈ lcaKept db.maxHash e.2
   len : db.nextIndex = ents.length
+  idxRange : ents.map (·.1) = List.range ents.length
 
 theorem lcaInv_new (k sc M mol : Nat) : LcaInv (LcaDb.new k sc M mol) [] := by
-  refine ⟨rfl, rfl, by simp, by simp, by simp, ?_, rfl⟩
+  refine ⟨rfl, rfl, by simp, by simp, by simp, ?_, rfl, rfl⟩
   intro h i
   simp [Owns, LcaDb.new]
 
@@ -172,6 +173,8 @@ theorem lcaInv_push (db : LcaDb) (ents : Ents) (ss : Sig) (inv : LcaInv db ents)
       · subst he; exact Or.inr ⟨e2, e1.symm⟩
   · show db.nextIndex + 1 = _
     simp [inv.len]
+  · simp only [List.map_append, List.map_cons, List.map_nil, List.length_append, List.length_cons,
+      List.length_nil, List.range_succ, inv.idxRange, inv.len]
 
 /-- specification of the insert loop: the entries that get in -/
 def lcaSpec (db : LcaDb) : List Sig → Ents × List Bool
@@ -428,5 +431,153 @@ theorem signatures_perm (db : LcaDb) (ents : Ents) (inv : LcaInv db ents) :
   obtain ⟨h1, h2⟩ := lca_find db ents inv e he
   simp only [Function.comp, h1, h2]
   rfl
+
+/-! ### ascending order of what `add_hash` rebuilds; the list is determined by its set -/
+
+theorem flatSorted_cons_insert : ∀ (t : List (Nat × Nat)) (x a h : Nat), FlatSorted ((x, a) :: t) → x < h →
+    FlatSorted ((x, a) :: insertHash t h) := by
+  intro t
+  induction t with
+  | nil => intro x a h hs hx; exact ⟨hs, hx, rfl⟩
+  | cons y u ih =>
+    obtain ⟨y1, y2⟩ := y
+    intro x a h hs hx
+    obtain ⟨ha, hxy, htail⟩ := hs
+    simp only [insertHash]
+    by_cases h1 : h < y1
+    · simp only [h1, if_true]
+      exact ⟨ha, hx, rfl, h1, htail⟩
+    · by_cases h2 : h = y1
+      · subst h2
+        have hirr : ¬ (h < h) := Nat.lt_irrefl h
+        simp only [hirr, if_false, if_true]
+        exact ⟨ha, hxy, htail⟩
+      · simp only [h1, h2, if_false]
+        exact ⟨ha, hxy, ih y1 y2 h htail (by omega)⟩
+
+theorem insertHash_flatSorted (l : List (Nat × Nat)) (h : Nat) (hs : FlatSorted l) : FlatSorted (insertHash l h) := by
+  cases l with
+  | nil => exact rfl
+  | cons y u =>
+    obtain ⟨y1, y2⟩ := y
+    simp only [insertHash]
+    by_cases h1 : h < y1
+    · simp only [h1, if_true]; exact ⟨rfl, h1, hs⟩
+    · by_cases h2 : h = y1
+      · subst h2
+        have hirr : ¬ (h < h) := Nat.lt_irrefl h
+        simp only [hirr, if_false, if_true]; exact hs
+      · simp only [h1, h2, if_false]
+        exact flatSorted_cons_insert u y1 y2 h hs (by omega)
+
+theorem foldl_insertHash_flatSorted (hs : List Nat) : ∀ acc, FlatSorted acc → FlatSorted (hs.foldl insertHash acc) := by
+  induction hs with
+  | nil => intro acc h; exact h
+  | cons x t ih => intro acc h; exact ih _ (insertHash_flatSorted acc x h)
+
+/-- a strictly ascending flat list is determined by its set of hash values -/
+theorem flatSorted_ext : ∀ (l1 l2 : List (Nat × Nat)), FlatSorted l1 → FlatSorted l2 →
+    (∀ x, x ∈ l1.map (·.1) ↔ x ∈ l2.map (·.1)) → l1 = l2 := by
+  intro l1
+  induction l1 with
+  | nil =>
+    intro l2 _ _ h
+    cases l2 with
+    | nil => rfl
+    | cons y u => have := (h y.1).2 (by simp); simp at this
+  | cons x t ih =>
+    intro l2 h1 h2 h
+    cases l2 with
+    | nil => have := (h x.1).1 (by simp); simp at this
+    | cons y u =>
+      have hx := flatSorted_lt h1
+      have hy := flatSorted_lt h2
+      have e1 : x.1 = y.1 := by
+        have a := (h x.1).1 (by simp)
+        have b := (h y.1).2 (by simp)
+        simp only [List.map_cons, List.mem_cons, List.mem_map] at a b
+        rcases a with a | ⟨q, hq, a⟩
+        · exact a
+        · rcases b with b | ⟨r, hr, b⟩
+          · exact b.symm
+          · have := hy q hq; have := hx r hr; omega
+      have e2 : x = y := by
+        have a1 := flatSorted_head h1
+        have a2 := flatSorted_head h2
+        obtain ⟨x1, x2⟩ := x; obtain ⟨y1, y2⟩ := y
+        simp only at e1 a1 a2; subst e1; subst a1; subst a2; rfl
+      subst e2
+      congr 1
+      apply ih u (flatSorted_tail h1) (flatSorted_tail h2)
+      intro z
+      have hz := h z
+      simp only [List.map_cons, List.mem_cons] at hz
+      constructor
+      · intro hm
+        rcases hz.1 (Or.inr hm) with e | e
+        · simp only [List.mem_map] at hm
+          obtain ⟨q, hq, rfl⟩ := hm
+          have := hx q hq; omega
+        · exact e
+      · intro hm
+        rcases hz.2 (Or.inr hm) with e | e
+        · simp only [List.mem_map] at hm
+          obtain ⟨q, hq, rfl⟩ := hm
+          have := hy q hq; omega
+        · exact e
+
+theorem flatSorted_of_pairwise : ∀ l : List Nat, l.Pairwise (· < ·) → FlatSorted (l.map fun h => (h, 1)) := by
+  intro l
+  induction l with
+  | nil => intro _; trivial
+  | cons x t ih =>
+    intro h
+    rw [List.pairwise_cons] at h
+    cases t with
+    | nil => exact rfl
+    | cons y u => exact ⟨rfl, h.1 y (by simp), ih h.2⟩
+
+theorem lcaSigOf_flatSorted (db : LcaDb) (idx name : Nat) : FlatSorted (lcaSigOf db idx name).hashes :=
+  foldl_insertHash_flatSorted _ [] trivial
+
+/-- for an input sketch with ascending hashes the hash list handed back is exactly the kept hashes, flat -/
+theorem lcaSigOf_exact (db : LcaDb) (idx name : Nat) (kept : List Nat) (hk : kept.Pairwise (· < ·))
+    (hset : ∀ x, x ∈ (lcaSigOf db idx name).hashes.map (·.1) ↔ x ∈ kept) :
+    (lcaSigOf db idx name).hashes = kept.map fun h => (h, 1) := by
+  apply flatSorted_ext _ _ (lcaSigOf_flatSorted db idx name) (flatSorted_of_pairwise kept hk)
+  intro x
+  rw [hset]
+  simp [List.map_map, Function.comp]
+
+theorem lcaKept_pairwise (M : Nat) (s : Sig) (h : (s.hashes.map (·.1)).Pairwise (· < ·)) :
+    (lcaKept M s).Pairwise (· < ·) := List.Pairwise.filter _ h
+
+/-! ### the index recomputation on JSON load -/
+
+theorem foldl_max_range (n : Nat) : (List.range n).foldl max 0 = n - 1 := by
+  induction n with
+  | zero => rfl
+  | succ k ih =>
+    rw [List.range_succ, List.foldl_append, ih]
+    simp only [List.foldl_cons, List.foldl_nil]
+    omega
+
+/-- saving to JSON and loading back changes nothing (the recomputed `_next_index` is the old one) -/
+theorem saveLoad_eq (db : LcaDb) (ents : Ents) (inv : LcaInv db ents) : db.saveLoad = db := by
+  unfold LcaDb.saveLoad
+  have h1 : db.identToIdx.map (·.2) = List.range ents.length := by
+    rw [inv.idx, List.map_map]
+    have : ((fun x : Nat × Nat => x.2) ∘ fun e : Nat × Sig => (e.2.name, e.1)) = fun e => e.1 := rfl
+    rw [this, inv.idxRange]
+  have h2 : db.identToIdx.isEmpty = ents.isEmpty := by
+    rw [inv.idx]; cases ents <;> rfl
+  rw [h1, h2, foldl_max_range]
+  cases hents : ents with
+  | nil =>
+    have := inv.len; rw [hents] at this
+    cases db; simp only at this ⊢; simp [this]
+  | cons e t =>
+    have := inv.len; rw [hents] at this
+    cases db; simp only [List.length_cons] at this ⊢; simp [this]
 
 end Sm.Storage
